@@ -35,6 +35,16 @@ func main() {
 	case "explain":
 		os.Exit(cmdExplain(os.Args[2:]))
 	case "list":
+		if len(os.Args) > 2 && os.Args[2] == "--json" {
+			var out []map[string]string
+			for _, id := range rules.IDs() {
+				p := rules.Get(id)
+				out = append(out, map[string]string{"id": id, "decides": p.Expl, "not_decided": p.NotD})
+			}
+			b, _ := json.MarshalIndent(out, "", " ")
+			fmt.Println(string(b))
+			return
+		}
 		for _, id := range rules.IDs() {
 			fmt.Println(id)
 		}
